@@ -396,6 +396,12 @@ impl M {
                 let e = s.w.g(T).current_epoch();
                 let op = move |w: &mut World| w.gm(T).propose_resumption_psk(e.saturating_sub(1), vec![]).map(|_| ());
                 fault_enum(&s.w, T, label, false, false, &op, &yes, ctx);
+                // an external-PSK proposal of T (consults the PSK store), and a fresh key package
+                // (writes to the key-package store)
+                let op = move |w: &mut World| w.gm(T).propose_external_psk(World::psk_id(0), vec![]).map(|_| ());
+                fault_enum(&s.w, T, "propose-external-psk", false, false, &op, &yes, ctx);
+                let op = move |w: &mut World| w.key_package(T).map(|_| ());
+                fault_enum(&s.w, T, "generate-key-package", false, false, &op, &yes, ctx);
                 Step::Stop
             }
         }
